@@ -1124,6 +1124,14 @@ def inline_new_locals(qualname: str, fn_node, max_rounds: int = 60, on_change=No
         return []
     known = set(known)
     inlined: List[str] = []
+    # `a, b = (x, y)` introducing a temporary the pinned function does not have: one assignment per name
+    for s in list(own_statements(fn_node)):
+        if isinstance(s, ast.Assign) and len(s.targets) == 1 and isinstance(s.targets[0], ast.Tuple) and isinstance(s.value, ast.Tuple) \
+                and any(isinstance(t, ast.Name) and t.id not in known for t in s.targets[0].elts):
+            parts = _split_tuple_assign(s)
+            if len(parts) > 1 or parts[0] is not s:
+                _replace_stmt(fn_node, s, parts)
+                ast.fix_missing_locations(fn_node)
     for _ in range(max_rounds):
         params = {a.arg for a in fn_node.args.posonlyargs + fn_node.args.args + fn_node.args.kwonlyargs}
         cand = None
